@@ -646,7 +646,13 @@ func genFacts() {
 	// ---- columns grammar and option unquoting (C20)
 	sp := load("sql/parse.go")
 	spt := sp.text(sp.fn("Schema").Body)
-	f["schemaGrammarStrict"] = leanBool(strings.Contains(spt, "list( parse.OneOf( parse.SeqWS( words(primaryKeyRE), parse.Exact(\"(\")") &&
+	typeBoundary := false
+	for _, d := range sp.file.Decls {
+		if gd, ok := d.(*ast.GenDecl); ok && gd.Tok == token.VAR && strings.Contains(sp.text(gd), "typeRE = regexp.MustCompile(`^(?i:text|varchar|integer|number|real)\\b`)") {
+			typeBoundary = true
+		}
+	}
+	f["schemaGrammarStrict"] = leanBool(typeBoundary && strings.Contains(spt, "list( parse.OneOf( parse.SeqWS( words(primaryKeyRE), parse.Exact(\"(\")") &&
 		strings.Contains(spt, "s.Columns = append(s.Columns, types.SchemaColumn{Name: col}) coltype = \"\"") &&
 		strings.Contains(spt, "words(notNullRE).Action(") && !strings.Contains(spt, "parse.Delimited(") &&
 		strings.Contains(sp.text(sp.fn("list").Body), "before := *e if !delimiter(e) { return true } if !term(e) { *e = before return true }") &&
